@@ -217,7 +217,7 @@ def run(chk):
     if not only or "proof" in only:
         chk.guard(kernel_obligations)
         from contracts import indexed
-        chk.guard(indexed.obligations, chk.prop)
+        chk.guard(indexed.obligations, chk.prop, fallback=[indexed._replay])
         chk.discharge()
     chk.assume("@njit kernels are verified as their undecorated Python bodies: numba nopython semantics == CPython on these "
                "values (no int64 overflow: array extents < 2**63); float64 treated as the reals")
